@@ -57,5 +57,10 @@ TEXT = {
              note=_std_note + " The ECDSA signature and Keccak-256 are outside the model: the harness verifies every report's signature against the server key. "
                   "Statistics are proved over natural-number microseconds; the tie to Go's float32 code is the STAT correspondence (latencies below 2^24). "
                   "Ping ids come from the nanosecond clock: distinctness of issued ids is a hypothesis (hfresh) of C18_round.", technique=_tech),
+ 'C19': dict(level="Queue part proved: C19_answer (exactly one answer: BAD_REQUEST iff a field is empty, else TOO_BUSY iff the queue is full, else accepted; the step is total), "
+                   "C19_bounded, C19_conservation (over any event the forwarded-or-queued receipts are those of before plus exactly the accepted submission, unchanged, once), "
+                   "C19_drain. The validity predicate (Keccak-256, signature recovery) and the HTTP forwarding are NOT modelled: they are exercised on the real "
+                   "HandleReceipts loop by go/cmd/receipts (valid triples, 12 single-field corruptions, service up/slow/down, queue full) against a reference validity written from the statement.",
+             note=_std_note + " Cryptographic primitives are oracles computed with go-ethereum; HTTP delivery is observed, not modelled.", technique=_tech + " + receipts side harness"),
 }
 NA = {}
